@@ -14,7 +14,7 @@ def txt(v):
 meta = {
     "property": prop,
     "origin": "fresh sub-agent given only the property text and its own worktree (second wave: also the list of earlier changes to avoid)"
-              if name.startswith("s2-") else "fresh sub-agent given only the property text and its own worktree",
+              if name.startswith(("s2-", "s3-", "s4-")) else "fresh sub-agent given only the property text and its own worktree",
     "summary": txt(am.get("summary") or am.get("what") or am.get("description") or ""),
     "needs": txt(am.get("needs") or am.get("trigger") or am.get("requires") or ""),
     "validated": "tools/validate_seed.sh: demo passes on HEAD, fails with the patch; full suite unchanged (load flakes of wall-clock tests re-run in isolation)",
